@@ -3,6 +3,7 @@ import RactorModel.Lemmas.TimersDrop
 import RactorModel.Lemmas.TimersDeliver
 import RactorModel.Lemmas.TimersStops
 import RactorModel.Lemmas.TimersBurst
+import RactorModel.Lemmas.TimersExact
 
 /-!
 # C12 — timers fire once, never early, and die with their target
@@ -41,8 +42,10 @@ nothing in the future, one-shot timers act at most once and their handle tells w
 the target stopped accepting (the instant its message loop ended — also while `post_stop` is still
 running), a `send_after` handle is `Ok` only for a send made no later than that instant and `Err` only
 after it, exit reasons have a source, handled messages were sent. -/
-theorem ok_all (ops : List Op) : ok (steps init ops) = true :=
-  ok_of_inv (Inv.init.steps ops) (DInv.init.steps Inv.init ops)
+theorem ok_all (ops : List Op) : ok (steps init ops) = true := by
+  unfold ok
+  rw [ok2_of_inv (Inv.init.steps ops) (DInv.init.steps Inv.init ops),
+    sentBeforeClose_of (all3_steps Inv.init DInv.init EInv.init ops)]; rfl
 
 /-- At every quiescent point of a quiescent run both predicates hold. -/
 theorem ok_quiescent (ms : List MOp) : ok (mrun init ms) = true ∧ okPrompt (mrun init ms) = true := by
@@ -50,8 +53,11 @@ theorem ok_quiescent (ms : List MOp) : ok (mrun init ms) = true ∧ okPrompt (mr
   · obtain ⟨ops, e⟩ := mrun_eq_steps init ms
     rw [e]; exact ok_all ops
   · obtain ⟨ha, hs⟩ := settled_mrun ms AInv.init settled_init
+    obtain ⟨ops, e⟩ := mrun_eq_steps init ms
+    have he : EInv (mrun init ms) := e ▸ all3_steps Inv.init DInv.init EInv.init ops
+    have hq : QM (mrun init ms).target := qm_mrun ms Inv.init AInv.init (fun _ => rfl)
     unfold okPrompt
-    rw [(BInv.init.mrun ms).okPrompt1, stopsOk_of (BInv.init.mrun ms).inv ha hs]; rfl
+    rw [(BInv.init.mrun ms).okPrompt1, stopsOk_of (BInv.init.mrun ms).inv ha hs, allHandledOk_of he hq]; rfl
 
 /-- DELIVERY-level at-most-once, for every schedule: no message (timer id, k) is in the mailbox or in
 the handled log twice — a `send_after` message is handled at most once, the k-th interval message at
@@ -162,6 +168,40 @@ theorem acted_then_gone (ms : List MOp) (τ : Timer) (hτ : τ ∈ (mrun init ms
     simp only [hk, hne', beq_self_eq_true, Bool.not_false, Bool.and_self, Bool.not_true, Bool.false_or,
       Bool.and_eq_true] at this
     intro h; rw [h] at this; simp at this
+
+/-- "A timer whose target is no longer running delivers nothing", at DELIVERY level, for every
+schedule: every handled message was sent (its attempt was made) no later than the instant the target
+stopped accepting; and as long as the target has never stopped accepting, every attempt of every
+well-typed sending timer is in the mailbox or handled — nothing is lost, nothing is refused. -/
+theorem delivers_nothing_after_close (ops : List Op) :
+    let s := steps init ops
+    (∀ tc, s.target.closedAt = some tc → ∀ h ∈ s.target.handled, ∀ τ, s.timers[h.1]? = some τ →
+      ∀ t, τ.sentAt[h.2.1 - 1]? = some t → t ≤ tc) ∧
+    (s.target.closedAt = none → ∀ i τ, s.timers[i]? = some τ → τ.kind.sends = true → τ.typed = true →
+      ∀ k, 1 ≤ k → k ≤ τ.sentAt.length →
+        (i, k) ∈ s.target.mbox ++ s.target.handled.map (fun h => (h.1, h.2.1))) := by
+  intro s
+  have he : EInv s := all3_steps Inv.init DInv.init EInv.init ops
+  refine ⟨fun tc htc h hh τ hτ t ht => ?_, he.acc⟩
+  exact he.before tc htc (h.1, h.2.1)
+    (List.mem_append_right _ (List.mem_map.mpr ⟨h, hh, rfl⟩)) τ hτ t ht
+
+/-- EXACTLY once (quiescent runs): while the target has never stopped accepting, at every quiescent
+point every attempt `k` of every well-typed sending timer `i` — the one message of a `send_after`, the
+k-th message of a `send_interval` — has been handled exactly once. -/
+theorem delivered_exactly_once (ms : List MOp) (hcl : (mrun init ms).target.closedAt = none)
+    (i : Nat) (τ : Timer) (hi : (mrun init ms).timers[i]? = some τ) (hs : τ.kind.sends = true)
+    (hty : τ.typed = true) (k : Nat) (h1 : 1 ≤ k) (h2 : k ≤ τ.sentAt.length) :
+    ((mrun init ms).target.handled.map (fun h => (h.1, h.2.1))).count (i, k) = 1 := by
+  obtain ⟨ops, e⟩ := mrun_eq_steps init ms
+  have he : EInv (mrun init ms) := e ▸ all3_steps Inv.init DInv.init EInv.init ops
+  have hd : DInv (mrun init ms) := e ▸ DInv.init.steps Inv.init ops
+  have hq : QM (mrun init ms).target := qm_mrun ms Inv.init AInv.init (fun _ => rfl)
+  have hm := he.acc hcl i τ hi hs hty k h1 h2
+  unfold Target.ids at hm
+  rw [hq hcl, List.nil_append] at hm
+  rw [List.Nodup.count ((hmap_sub _).nodup hd.nodup)]
+  simp [hm]
 
 /-- a one-shot's message is handled at most once -/
 theorem oneShot_handled_once (ops : List Op) (i : Nat) (τ : Timer) (hi : (steps init ops).timers[i]? = some τ)
@@ -440,6 +480,8 @@ end C12
 #print axioms C12.mistyped_fails_once
 #print axioms C12.delivered_at_most_once
 #print axioms C12.oneShot_handled_once
+#print axioms C12.delivers_nothing_after_close
+#print axioms C12.delivered_exactly_once
 #print axioms C12.interval_fires
 #print axioms C12.exitAfter_fires
 #print axioms C12.killAfter_fires
